@@ -504,6 +504,12 @@ def standard_check(prop, tier, seed, fam):
         "exhaustive": False,
     }
     cov.update(fam.get("extra_cov", {}))
+    if fam.get("advisory"):
+        # advisory conformance of internal steps against the X spec (DRIFT is reported, never a verdict)
+        try:
+            cov["x_conformance"] = fam["advisory"](wd, binp, seed, tier)
+        except Exception as e:  # advisory only
+            cov["x_conformance"] = {"error": str(e)[:500]}
     if states == 0:
         cov["states"] = cov["transitions"] = 0  # evidence then falls back to the generic keys
         cov["evaluations"] = st["executions"]
